@@ -267,6 +267,14 @@ impl Run {
             self.stats.nontrivial.len(),
             wall
         );
+        let harness_faults: Vec<&Violation> = self.violations.iter().filter(|v| v.failure.signature.starts_with("harness")).collect();
+        if !harness_faults.is_empty() {
+            for v in &harness_faults {
+                println!("  harness fault [{}]: {}", v.failure.signature, v.failure.msg);
+            }
+            println!("INCONCLUSIVE property={} reason=harness-fault", self.prop);
+            return 2;
+        }
         if !self.violations.is_empty() {
             for (v, p) in self.violations.iter().zip(&replay_paths) {
                 println!("  failure [{}]: {}", v.failure.signature, v.failure.msg);
@@ -322,9 +330,15 @@ pub fn guarded<T>(f: impl FnOnce() -> T) -> Result<T, (String, String)> {
 
 /// Strip the absolute prefix so signatures are stable (src/file.rs:123).
 pub fn short_loc(loc: &str) -> String {
+    if loc.starts_with("src/") {
+        return format!("harness/{}", loc);
+    }
     match loc.find("/src/") {
         Some(i) if loc.starts_with("/repo") => loc[i + 1..].to_string(),
-        _ => loc.to_string(),
+        _ => match loc.find("/registry/src/") {
+            Some(i) => format!("dep:{}", loc[i + 14..].splitn(2, '/').nth(1).unwrap_or(loc)),
+            None => loc.to_string(),
+        },
     }
 }
 
@@ -333,6 +347,10 @@ pub fn check_guarded(f: impl FnOnce() -> CheckResult) -> CheckResult {
         Ok(r) => r,
         Err((loc, msg)) => {
             let l = short_loc(&loc);
+            if l.starts_with("harness/") {
+                // a panic inside the harness itself is a harness fault, never a property violation
+                return Err(Failure::new(format!("harness-panic:{}", l), format!("harness bug: panic at {}: {}", l, msg)));
+            }
             Err(Failure::new(format!("panic:{}", l), format!("panic at {}: {}", l, msg)))
         }
     }
